@@ -103,28 +103,78 @@ def run(F, R, tier):
     R.count("read loops analysed", n_loops)
     R.floor("read loops", n_loops, 1)
     # ---- (b) unbounded reads and prefix copy ----------------------------------------------------------------------------------
-    rf = F.fn(BF + "read_from_file")
-    if R.anchor("read_from_file", rf):
-        txt = H.render(H.body_of(rf))
-        takes = [c for c in H.walk(H.body_of(rf)) if c.get("k") == "mcall" and c["m"] == "take"]
-        ok = len(takes) == 1 and H.render(takes[0]["recv"]) == "buf_slice.iter()" and H.render(takes[0]["args"]) == "bytes_read"
-        R.ob("prefix-copy", "exactly the bytes read are copied: buf_slice.iter().take(bytes_read)", ok,
-             H.render(takes[0])[:80] if takes else "no take()", F.loc(rf))
-        rd = [c for c in H.walk(H.body_of(rf)) if c.get("k") == "mcall" and c["m"] == "read"]
-        R.ob("prefix-copy", "the slice read into is the slice copied from", len(rd) == 1 and H.render(rd[0]["args"]) == "buf_slice", "", F.loc(rf))
-        adds = [H.render(x) for x in H.walk(H.body_of(rf)) if x.get("k") == "assignop"]
-        R.ob("quota-accounting", "total_bytes_read += bytes_read once per successful read", adds == ["total_bytes_read += bytes_read"], str(adds), F.loc(rf))
+    # the chunked reader: the function of functions.rs with a loop around Read::read that builtin_read calls (by role, whatever
+    # it is called)
     br = F.fn(BF + "builtin_read")
+    rf = None
+    if br is not None:
+        called = {c.get("callee") for c in H.walk(H.body_of(br)) if c.get("k") == "call" and c.get("callee") in F.fns}
+        for q in sorted(called):
+            g_ = F.fns[q]
+            if g_["file"].endswith("builtins/functions.rs") and any(
+                    lp.get("k") == "loop" and any(c.get("k") == "mcall" and c["m"] == "read" and ((c.get("callee") or "").endswith("Read::read") or (c.get("decl") or "").endswith("Read::read"))
+                                                  for c in H.walk(lp)) for lp in H.walk(H.body_of(g_))):
+                rf = g_
+    if R.anchor("the chunked reader called by builtin_read (read_from_file)", rf):
+        body = H.body_of(rf)
+        rd = [c for c in H.walk(body) if c.get("k") == "mcall" and c["m"] == "read" and ((c.get("callee") or "").endswith("Read::read") or (c.get("decl") or "").endswith("Read::read"))]
+        takes = [c for c in H.walk(body) if c.get("k") == "mcall" and c["m"] == "take"]
+        # the count the read reported: the Ok(n) binding of the match on the read's result (or a local bound to that match)
+        counts = set()
+        for m in H.walk(body):
+            if m.get("k") == "match" and not H.is_try(m) and rd and any(x is rd[0] for x in H.walk(m["scrut"])):
+                for a in m["arms"]:
+                    pt = a["pat"]
+                    if pt.get("k") == "ts" and H.last(pt["res"].get("path")) == "Ok" and pt["pats"] and pt["pats"][0].get("k") == "bind":
+                        counts.add(pt["pats"][0]["id"])
+                for st in H.walk(body):
+                    if st.get("k") == "let" and st.get("init") is m and st.get("pat", {}).get("k") == "bind":
+                        counts.add(st["pat"]["id"])
+        window = H.local_id(H.strip(rd[0]["args"][0])) if len(rd) == 1 and rd[0].get("args") else None
+        ok = len(takes) == 1 and len(rd) == 1 and window is not None and H.local_id(H.strip(takes[0]["args"][0])) in counts
+        src = H.strip(takes[0]["recv"]) if takes else {}
+        while src.get("k") == "mcall" and src["m"] in ("iter", "into_iter", "copied", "cloned"):
+            src = H.strip(src["recv"])
+        R.ob("prefix-copy", "exactly the bytes read are copied: <window>.iter().take(<count reported by read>)", ok,
+             H.render(takes[0])[:80] if takes else "no take()", F.loc(rf))
+        R.ob("prefix-copy", "the slice read into is the slice copied from", len(rd) == 1 and window is not None and H.local_id(src) == window, "", F.loc(rf))
+        adds = [x for x in H.walk(body) if x.get("k") == "assignop"]
+        # the running total is advanced by the reported count once, and it is the value the loop condition compares with the limit
+        ok = len(adds) == 1 and adds[0]["op"].startswith("+") and H.local_id(H.strip(adds[0]["r"])) in counts
+        tot = H.local_id(H.strip(adds[0]["l"])) if adds else None
+        conds = [x for x in H.walk(body) if x.get("k") == "bin" and x["op"] in ("<", ">=", ">", "<=") and tot is not None and
+                 (H.local_id(H.strip(x["l"])) == tot or H.local_id(H.strip(x["r"])) == tot)]
+        R.ob("quota-accounting", "the running total is advanced by the count of each successful read, once, and bounds the loop", ok and bool(conds),
+             str([H.render(x) for x in adds]), F.loc(rf))
     if R.anchor("builtin_read", br):
-        brb = H.body_inl(F, br, keep=("read_from_file",))
+        rname = H.last(rf["path"]) if rf else "read_from_file"
+        brb = H.body_inl(F, br, keep=(rname,))
         defaults = [H.render(H.strip(x.get("e"))) for x in H.walk(brb) if x.get("k") == "if" and re.search(r"args\)?\.len\(\) == 2", H.render(x["c"])) and "e" in x]
-        n_reads = len([c for c in H.walk(brb) if c.get("k") == "call" and H.last(c.get("callee") or "") == "read_from_file"])
+        n_reads = len([c for c in H.walk(brb) if c.get("k") == "call" and H.last(c.get("callee") or "") == rname])
         R.ob("read-all-default", "read(f) without a count reads up to usize::MAX bytes (both handle kinds)", [re.sub(r"^v1::Ok\((.*)\)$", r"\1", d) for d in defaults] == ["MAX"] * n_reads and n_reads == 2,
              "%s for %d reads" % (defaults, n_reads), F.loc(br))
+
+    def reader_borrows(g_):
+        """locals bound to `<payload of FileHandle::Reader>.borrow_mut()` in g_"""
+        b_ = H.body_of(g_)
+        payload = set()
+        for m in H.walk(b_):
+            if m.get("k") == "match" and not H.is_try(m):
+                for a in m["arms"]:
+                    if any((v or "").endswith("FileHandle::Reader") for v in H.pat_variants(a["pat"])):
+                        payload |= {y["id"] for y in H.walk(a["pat"]) if y.get("k") == "bind"}
+        out = set()
+        for st in H.walk(b_):
+            if st.get("k") == "let" and st.get("pat", {}).get("k") == "bind" and st.get("init") is not None:
+                i_ = H.strip(st["init"]) if st["init"].get("k") != "mcall" else st["init"]
+                if i_.get("k") == "mcall" and i_["m"] == "borrow_mut" and H.local_id(H.strip(i_["recv"])) in payload:
+                    out.add(st["pat"]["id"])
+        return out, payload
     rs = F.fn(BF + "builtin_read_to_string")
     if R.anchor("builtin_read_to_string", rs):
         c = [x for x in H.walk(H.body_of(rs)) if x.get("k") == "mcall" and x["m"] == "read_to_end"]
-        R.ob("read-all-default", "read_to_string uses read_to_end on the handle's reader", len(c) == 1 and H.render(c[0]["recv"]) == "file", "", F.loc(rs))
+        rb_, _ = reader_borrows(rs)
+        R.ob("read-all-default", "read_to_string uses read_to_end on the handle's reader", len(c) == 1 and H.local_id(H.strip(c[0]["recv"])) in rb_, "", F.loc(rs))
     # ---- (c) mode table ------------------------------------------------------------------------------------------------------------
     bo = F.fn(BF + "builtin_open")
     if R.anchor("builtin_open", bo):
@@ -253,5 +303,5 @@ def run(F, R, tier):
         g = F.fn(BF + fn)
         if R.anchor(fn, g):
             txt = H.render(H.body_of(g))
-            ok = "reader.borrow_mut()" in txt and "File::open" not in txt and "BufReader::new" not in txt
+            ok = bool(reader_borrows(g)[0]) and "File::open" not in txt and "BufReader::new" not in txt
             R.ob("single-buffer-per-handle", "%s reads through the handle's BufReader" % fn, ok, "", F.loc(g), nontrivial=False)
